@@ -2,7 +2,7 @@
 
 PROP = dict(
     level="proof",
-    lean_modules=['PopsModel.Props.C04'],
+    lean_modules=['PopsModel.Props.C04', 'PopsModel.Props.NonVacuous.Host'],
     theorems=['Pops.C04_generation', 'Pops.C04_soil_split', 'Pops.C04_soil_ages_out', 'Pops.C04_each_disperser_once', 'Pops.C04_ledger_cell', 'Pops.C04_ledger'],
     commands=['hp.spread', 'hp.dispfrom', 'hp.add', 'hp.soil.*', 'hp.soilstate'],
     runs={
